@@ -5,6 +5,32 @@ use serde_json::json;
 
 fn sorted(a: &[i32]) -> Vec<i32> { let mut s = a.to_vec(); s.sort(); s }
 
+/// elements that are ordered by `key` only but stay distinguishable through `id`: the routines are generic
+/// over `Ord + Clone`, so ties between *different* elements are part of their input space
+#[derive(Clone, Debug)]
+pub struct Rec { pub key: i32, pub id: u32 }
+impl PartialEq for Rec { fn eq(&self, o: &Rec) -> bool { self.key == o.key } }
+impl Eq for Rec {}
+impl PartialOrd for Rec { fn partial_cmp(&self, o: &Rec) -> Option<std::cmp::Ordering> { Some(self.cmp(o)) } }
+impl Ord for Rec { fn cmp(&self, o: &Rec) -> std::cmp::Ordering { self.key.cmp(&o.key) } }
+fn recs(a: &[i32]) -> Vec<Rec> { a.iter().enumerate().map(|(i, k)| Rec { key: *k, id: i as u32 }).collect() }
+fn ident(v: &[Rec]) -> Vec<(i32, u32)> { let mut x: Vec<(i32, u32)> = v.iter().map(|r| (r.key, r.id)).collect(); x.sort(); x }
+
+fn with_layouts_rec(a: &[Rec], mut f: impl FnMut(&str, ArrayViewMut1<Rec>)) -> bool {
+    let n = a.len();
+    let g = Rec { key: -77, id: 9999 };
+    let mut ok = true;
+    let mut v = Array1::from(a.to_vec());
+    f("c", v.view_mut());
+    let mut parent = Array1::from_elem(2 * n + 3, g.clone());
+    for (k, x) in a.iter().enumerate() { parent[1 + 2 * k] = x.clone(); }
+    f("s2", parent.slice_mut(s![1..2 * n + 1;2]));
+    for k in 0..parent.len() { if (k < 1 || (k - 1) % 2 == 1 || k > 2 * n) && (parent[k].key != -77 || parent[k].id != 9999) { ok = false; } }
+    let mut rev = Array1::from(a.iter().rev().cloned().collect::<Vec<_>>());
+    f("r1", rev.slice_mut(s![..;-1]));
+    ok
+}
+
 /// embed `a` as a stepped / reversed view inside a larger buffer and run `f` on the 1-D view;
 /// returns whether the guard elements of the parent survived.
 fn with_layouts(a: &[i32], mut f: impl FnMut(&str, ArrayViewMut1<i32>)) -> bool {
@@ -38,19 +64,31 @@ pub fn partition(cfg: &mut Cfg, rep: &mut Report) {
                     let r = guarded(|| v.partition_mut(p));
                     let c2 = format!("{};layout={}", case, lay);
                     match r {
-                        Err(m) => rep.fail(cfg, &case, "partition_mut panicked for an in-range pivot position", json!({"layout": lay, "panic": m})),
+                        Err(m) => rep.fail_p(cfg, &case, "C15,C16", "partition_mut panicked for an in-range pivot position", json!({"layout": lay, "panic": m})),
                         Ok(k) => {
                             let after: Vec<i32> = v.iter().copied().collect();
                             let rank = a.iter().filter(|x| **x < pv).count();
+                            if sorted(&after) != sorted(a) { rep.fail_p(cfg, &case, "C03,C15", "partition_mut changed the multiset of the array", json!({"layout": lay, "after": after})); }
                             let okk = k == rank && k < n && after[k] == pv
-                                && after[..k].iter().all(|x| *x < pv) && after[k + 1..].iter().all(|x| *x >= pv)
-                                && sorted(&after) == sorted(a);
-                            if !okk { rep.fail(cfg, &case, "partition_mut postcondition", json!({"layout": lay, "returned": k, "rank": rank, "after": after})); }
+                                && after[..k].iter().all(|x| *x < pv) && after[k + 1..].iter().all(|x| *x >= pv);
+                            if !okk { rep.fail_p(cfg, &case, "C15", "partition_mut postcondition", json!({"layout": lay, "returned": k, "rank": rank, "after": after})); }
                         }
                     }
                     rep.eval(&c2, n >= 2);
                 });
-                if !guards { rep.fail(cfg, &case, "elements outside the view were modified", json!({})); }
+                if !guards { rep.fail_p(cfg, &case, "C03", "elements outside the view were modified", json!({})); }
+                // the same input as distinguishable records: the view must still hold the same *elements*
+                let ra = recs(a);
+                with_layouts_rec(&ra, |lay, mut v| {
+                    let pk = v[p].key;
+                    if let Ok(k) = guarded(|| v.partition_mut(p)) {
+                        let after: Vec<Rec> = v.iter().cloned().collect();
+                        if ident(&after) != ident(&ra) {
+                            rep.fail_p(cfg, &case, "C03", "partition_mut lost or duplicated an element (ties between distinct elements)", json!({"layout": lay, "after": format!("{:?}", after)}));
+                        }
+                        if after[k].key != pk { rep.fail_p(cfg, &case, "C15", "partition_mut: position k does not hold the pivot value (records)", json!({"layout": lay})); }
+                    }
+                });
             }
             !rep.stop
         });
@@ -74,21 +112,39 @@ pub fn select(cfg: &mut Cfg, rep: &mut Report) {
                         ndarray_stats::verif_hooks::set_pivot_script(Some(script.to_vec()));
                         let r = guarded(|| v.get_from_sorted_mut(i));
                         match r {
-                            Err(m) => rep.fail(cfg, &case, "get_from_sorted_mut panicked for an in-range index", json!({"layout": lay, "script": script, "panic": m})),
+                            Err(m) => rep.fail_p(cfg, &case, "C02,C16", "get_from_sorted_mut panicked for an in-range index", json!({"layout": lay, "script": script, "panic": m})),
                             Ok(x) => {
                                 results.insert(x);
                                 let after: Vec<i32> = v.iter().copied().collect();
                                 let ok = x == s[i] && after[i] == x && after[..i].iter().all(|y| *y <= x)
-                                    && after[i..].iter().all(|y| *y >= x) && sorted(&after) == s;
-                                if !ok { rep.fail(cfg, &case, "selection postcondition", json!({"layout": lay, "script": script, "returned": x, "expected": s[i], "after": after})); }
+                                    && after[i..].iter().all(|y| *y >= x);
+                                if !ok { rep.fail_p(cfg, &case, "C02", "selection postcondition (value / partition around position i)", json!({"layout": lay, "script": script, "returned": x, "expected": s[i], "after": after})); }
+                                if sorted(&after) != s { rep.fail_p(cfg, &case, "C02,C03", "selection changed the multiset of the lane", json!({"layout": lay, "script": script, "after": after})); }
                             }
                         }
                         rep.eval(&format!("{};script={:?};layout={}", case, script, lay), n >= 2);
                     });
-                    if !guards { rep.fail(cfg, &case, "elements outside the view were modified", json!({"script": script})); }
+                    if !guards { rep.fail_p(cfg, &case, "C03", "elements outside the view were modified", json!({"script": script})); }
                     !rep.stop
                 });
-                if results.len() > 1 { rep.fail(cfg, &case, "result depends on the pivot sequence", json!({"results": results})); }
+                if results.len() > 1 { rep.fail_p(cfg, &case, "C02", "result depends on the pivot sequence", json!({"results": results})); }
+                // distinguishable records: the lane keeps exactly its elements, the result is an element of rank i
+                let ra = recs(a);
+                for_all_pivot_scripts(100_000, |script| {
+                    with_layouts_rec(&ra, |lay, mut v| {
+                        ndarray_stats::verif_hooks::set_pivot_script(Some(script.to_vec()));
+                        if let Ok(x) = guarded(|| v.get_from_sorted_mut(i)) {
+                            let after: Vec<Rec> = v.iter().cloned().collect();
+                            if ident(&after) != ident(&ra) {
+                                rep.fail_p(cfg, &case, "C02,C03", "selection lost or duplicated an element (ties between distinct elements)", json!({"layout": lay, "script": script, "after": format!("{:?}", after)}));
+                            }
+                            if x.key != s[i] || after[i].key != x.key {
+                                rep.fail_p(cfg, &case, "C02", "selection postcondition on distinguishable records", json!({"layout": lay, "script": script}));
+                            }
+                        }
+                    });
+                    !rep.stop
+                });
             }
             !rep.stop
         });
@@ -115,20 +171,21 @@ pub fn select_many(cfg: &mut Cfg, rep: &mut Report) {
                     let mut v = Array1::from(a.to_vec());
                     let r = guarded(|| v.get_many_from_sorted_mut(&Array1::from(ix.clone())));
                     match r {
-                        Err(m) => rep.fail(cfg, &case, "get_many_from_sorted_mut panicked for in-range indexes", json!({"script": script, "panic": m})),
+                        Err(m) => rep.fail_p(cfg, &case, "C02,C16,C18", "get_many_from_sorted_mut panicked for in-range indexes", json!({"script": script, "panic": m})),
                         Ok(map) => {
                             let keys: Vec<usize> = map.keys().copied().collect();
                             let vals_ok = map.iter().all(|(k, x)| *x == s[*k]);
                             let after: Vec<i32> = v.iter().copied().collect();
-                            if keys != want || !vals_ok || sorted(&after) != s {
-                                rep.fail(cfg, &case, "bulk selection postcondition", json!({"script": script, "keys": keys, "values": map.values().collect::<Vec<_>>(), "sorted": s}));
+                            if sorted(&after) != s { rep.fail_p(cfg, &case, "C02,C03", "bulk selection changed the multiset of the array", json!({"script": script})); }
+                            if keys != want || !vals_ok {
+                                rep.fail_p(cfg, &case, "C02,C18", "bulk selection postcondition", json!({"script": script, "keys": keys, "values": map.values().collect::<Vec<_>>(), "sorted": s}));
                             }
                             // bulk == single (C18)
                             for (k, x) in map.iter() {
                                 let mut w = Array1::from(a.to_vec());
                                 ndarray_stats::verif_hooks::set_pivot_script(Some(script.to_vec()));
                                 if guarded(|| w.get_from_sorted_mut(*k)).ok() != Some(*x) {
-                                    rep.fail(cfg, &case, "bulk entry differs from single selection", json!({"script": script, "index": k}));
+                                    rep.fail_p(cfg, &case, "C18,C02", "bulk entry differs from single selection", json!({"script": script, "index": k}));
                                 }
                             }
                         }
